@@ -271,4 +271,631 @@ theorem handlerPoll_hp : ∀ (fuel : Nat) (r : AReq) (h : HState) (e : Run.Env),
           | err x => simp only []; exact FAIL _ { h with writers := h.writers.set i (some w1) } _ _ (h1.ev _)
           | panic s => simp only []; exact h1.2
 
+/-! ## 3. `close()` -/
+
+theorem sinv_op {sp : Str.Parser} (h : SInv sp) (op : Op) (hl : Legal sp op) :
+    SInv (applyOp sp op) ∧ (applyOp sp op).cap = sp.cap :=
+  ⟨(trace_safe h (ops := [op]) ⟨hl, trivial⟩).1, (C05.applyOps_frame [op] sp).1⟩
+
+theorem boundaryLoop_sinv : ∀ (fuel : Nat) (sp : Str.Parser) (new : Bytes) (t : Transport)
+    {sp' : Str.Parser} {t' : Transport} {res : ORes}, SInv sp → new.length ≤ sp.free →
+    boundaryLoop fuel sp new t = (sp', t', res) → SInv sp' ∧ sp'.cap = sp.cap := by
+  intro fuel
+  induction fuel with
+  | zero => intro sp new t sp' t' res hs _ h; simp only [boundaryLoop] at h; cases h; exact ⟨hs, rfl⟩
+  | succ n ih =>
+    intro sp new t sp' t' res hs hn h
+    have hq := sinv_op hs (.parse new none) ⟨Or.inl rfl, hn⟩
+    have hcont : ∀ (q : Str.Parser), SInv q → boundaryLoop.cont q t n = (sp', t', res) →
+        SInv sp' ∧ sp'.cap = q.cap := by
+      intro q hsq hc
+      simp only [boundaryLoop.cont] at hc
+      split at hc
+      · cases hc; exact ⟨hsq, rfl⟩
+      · split at hc
+        · cases hc; exact ⟨hsq, rfl⟩
+        · have hcq := sinv_op hsq .compress trivial
+          rcases hrd : t.read q.compress.free with ⟨t1, rr⟩
+          rw [hrd] at hc
+          obtain ⟨_, hok, _⟩ := tread_spec hrd
+          rcases rr with (_ | bs) | _
+          · simp only at hc; cases hc; exact hcq
+          · cases bs with
+            | nil => simp only at hc; cases hc; exact hcq
+            | cons x xs =>
+              simp only at hc
+              obtain ⟨hlen, _, _⟩ := hok (x :: xs) rfl
+              obtain ⟨h1, h2⟩ := ih _ _ _ hcq.1 hlen hc
+              exact ⟨h1, h2.trans hcq.2⟩
+          · simp only at hc; cases hc; exact hcq
+    simp only [boundaryLoop] at h
+    rcases hpar : sp.parse new none with ⟨q, pr⟩
+    rw [hpar] at h
+    have hqe : q = applyOp sp (.parse new none) := by simp [applyOp, hpar]
+    rw [← hqe] at hq
+    cases pr with
+    | panic s => simp only at h; cases h; exact hq
+    | err e =>
+      simp only at h
+      split at h
+      · obtain ⟨h1, h2⟩ := hcont q hq.1 h; exact ⟨h1, h2.trans hq.2⟩
+      · cases h; exact hq
+    | ok st =>
+      simp only at h
+      obtain ⟨h1, h2⟩ := hcont q hq.1 h; exact ⟨h1, h2.trans hq.2⟩
+
+/-- operations that send nothing and leave the log alone extend the ledger -/
+theorem GLed.ops0 {sp0 sp sp' : Str.Parser} {ops ops' : List Op} {wl0 wl : Bytes} (h : GLed sp0 ops sp wl0 wl)
+    (hsp : sp' = applyOps sp ops') (hs : C03S.sentAll sp ops' = []) : GLed sp0 (ops ++ ops') sp' wl0 wl := by
+  obtain ⟨mix, hm, hsub⟩ := h.sent
+  refine ⟨by rw [hsp, h.sp_eq, Str.applyOps_append], mix, hm, ?_⟩
+  rw [Async.sentAll_append, ← h.sp_eq, hs, List.append_nil]
+  exact hsub
+
+/-- flushing the whole reply buffer into the log -/
+theorem GLed.flushAll {sp0 sp : Str.Parser} {ops : List Op} {wl0 wl : Bytes} (h : GLed sp0 ops sp wl0 wl) :
+    GLed sp0 (ops ++ [.consumeOutput sp.output.length]) (sp.consumeOutput sp.output.length) wl0
+      (wl ++ sp.output) := by
+  obtain ⟨mix, hm, hsub⟩ := h.sent
+  refine ⟨by rw [h.sp_eq, Str.applyOps_append]; rfl, mix ++ sp.output, by rw [hm, List.append_assoc], ?_⟩
+  rw [Async.sentAll_append, ← h.sp_eq]
+  simp only [C03S.sentAll, C03S.outSent, List.append_nil, List.take_length]
+  exact hsub.append (List.Sublist.refl _)
+
+variable {sp0 : Str.Parser} {wl0 : Bytes} {script0 : List HOp}
+
+theorem HI.weaken {r : AReq} {ws : List (Option Writer)} {e : Run.Env} (h : HI sp0 wl0 script0 r ws e)
+    {s' : List HOp} (hnp : ¬ Plain s') : HI sp0 wl0 s' r ws e :=
+  ⟨h.ainv, h.linv, h.wcons, h.bound, by obtain ⟨ops, hg, _⟩ := h.led; exact ⟨ops, hg, fun hP => absurd hP hnp⟩⟩
+
+/-- `record_boundary()` (one poll) keeps `HI` -/
+theorem HI.boundary {r : AReq} {ws : List (Option Writer)} {e : Run.Env} (h : HI sp0 wl0 script0 r ws e)
+    (hnp : ¬ Plain script0) {resume : Bool} {sp' : Str.Parser} {t' : Transport} {res : ORes}
+    (hb : closeBoundary r.sp resume e.tr = (sp', t', res)) :
+    HI sp0 wl0 script0 { r with sp := sp' } ws { e with tr := t' } := by
+  -- the loop from a parser `q` with `HI`
+  have loop : ∀ (q : Str.Parser) (t0 : Transport) (new : Bytes) (fuel : Nat),
+      HI sp0 wl0 script0 { r with sp := q } ws { e with tr := t0 } → new.length ≤ q.free →
+      boundaryLoop fuel q new t0 = (sp', t', res) →
+      HI sp0 wl0 script0 { r with sp := sp' } ws { e with tr := t' } := by
+    intro q t0 new fuel hq hn hl
+    obtain ⟨ops', h1, h2, h3, h4, _⟩ := boundaryLoop_ops fuel q new t0 hl
+    obtain ⟨hs1, hs2⟩ := boundaryLoop_sinv fuel q new t0 hq.ainv.1 hn hl
+    obtain ⟨ops, hg, _⟩ := hq.led
+    refine ⟨⟨hs1, by show 24 ≤ sp'.cap; rw [hs2]; exact hq.ainv.2⟩,
+      lockInv_sp hq.linv (fun hx => by
+        have : q.output ++ C03S.grownAll q ops' = [] := by rw [← h4]; exact hx
+        exact (List.append_eq_nil_iff.1 this).1),
+      hq.wcons, hq.bound, ops ++ ops', ?_, fun hP => absurd hP hnp⟩
+    show GLed sp0 (ops ++ ops') sp' wl0 t'.wlog
+    rw [h3]
+    exact hg.ops0 h1 h2
+  have same : ∀ (t0 : Transport), t0.wlog = e.tr.wlog → HI sp0 wl0 script0 r ws { e with tr := t0 } :=
+    fun t0 hw => h.congr rfl hw
+  unfold closeBoundary at hb
+  split at hb
+  · rcases hrd : e.tr.read r.sp.free with ⟨t1, rr⟩
+    rw [hrd] at hb
+    obtain ⟨hwl, hok, _⟩ := tread_spec hrd
+    rcases rr with (_ | bs) | _
+    · simp only at hb; cases hb; exact same _ hwl
+    · cases bs with
+      | nil => simp only at hb; cases hb; exact same _ hwl
+      | cons x xs =>
+        simp only at hb
+        obtain ⟨hlen, _, _⟩ := hok (x :: xs) rfl
+        exact loop r.sp t1 (x :: xs) _ (same _ hwl) hlen hb
+    · simp only at hb; cases hb; exact same _ hwl
+  · split at hb
+    · cases hb; exact h
+    · exact loop r.sp e.tr [] _ h (Nat.zero_le _) hb
+
+/-- the ledger inside `close()`; `wl1` = the log when the handler was started -/
+def CSt (sp0 : Str.Parser) (wl1 : Bytes) (st : ExitStatus) (al : Nat) (r : AReq) (cs : CloseSt) (e : Run.Env) : Prop :=
+  match cs with
+  | .writeOut rest endreq =>
+    ∃ ops wlB, AInv r ∧ GLed sp0 ops r.sp wl1 wlB ∧ e.tr.wlog ++ rest = wlB ++ r.sp.output ∧
+      endreq = epilogueOf r st ∧ r.sp.isRecordBoundary = true ∧ e.mutex = none
+  | .writeEnd rest =>
+    ∃ ops wlE, AInv r ∧ GLed sp0 ops r.sp wl1 wlE ∧ r.sp.output = [] ∧ r.sp.isRecordBoundary = true ∧
+      e.tr.wlog ++ rest = wlE ++ epilogueOf r st ∧ e.mutex = none
+  | _ => ∃ ws, HI sp0 wl1 [.writeable] r ws e ∧ (al = 0 → ws = [])
+
+/-- what holds when `close()` hands the parser back -/
+def Reused (sp0 : Str.Parser) (wl1 : Bytes) (st : ExitStatus) (r' : AReq) (rp : Req.Parser) (e' : Run.Env) : Prop :=
+  ∃ ops mix, r'.sp = applyOps sp0 ops ∧ List.Sublist (C03S.sentAll sp0 ops) mix ∧ r'.sp.output = [] ∧
+    e'.tr.wlog = wl1 ++ mix ++ epilogueOf r' st ∧ e'.mutex = none ∧
+    PInv rp ∧ rp.state = .header ∧ rp.maxConns = r'.sp.maxConns ∧ rp.input = r'.sp.raw
+
+/-- what one poll of `close()` leaves -/
+def CPost (sp0 : Str.Parser) (wl1 : Bytes) (st : ExitStatus) (al : Nat) (out : CloseOut) : Prop :=
+  (out.2.2.2.2 = .pending → CSt sp0 wl1 st al out.1 out.2.1 { tr := out.2.2.2.1, mutex := out.2.2.1, segs := [] }) ∧
+  (∀ rp, out.2.2.2.2 = .reuse rp →
+    Reused sp0 wl1 st out.1 rp { tr := out.2.2.2.1, mutex := out.2.2.1, segs := [] })
+
+theorem notPlainW : ¬ Plain [HOp.writeable] := fun h => by have := h _ List.mem_cons_self; cases this
+
+theorem finishEnd_cst {sp0 : Str.Parser} {wl1 : Bytes} {st : ExitStatus} {al : Nat} {r : AReq} {rest : Bytes}
+    {t : Transport} {ops : List Op} {wlE : Bytes} (ha : AInv r) (hg : GLed sp0 ops r.sp wl1 wlE)
+    (ho : r.sp.output = []) (hb : r.sp.isRecordBoundary = true) (hw : t.wlog ++ rest = wlE ++ epilogueOf r st) :
+    CPost sp0 wl1 st al (closePoll.finishEnd r rest none t) := by
+  rcases hfe : closePoll.finishEnd r rest none t with ⟨r', cs', m', t', res⟩
+  obtain ⟨rfl, rfl, done, rest', rfl, hd, hwl, _, hres⟩ := finishEnd_spec hfe
+  have hlog : t'.wlog ++ rest' = wlE ++ epilogueOf r' st := by rw [hwl, List.append_assoc, ← hd]; exact hw
+  refine ⟨fun _ => ⟨ops, wlE, ha, hg, ho, hb, hlog, rfl⟩, fun rp hrp => ?_⟩
+  simp only at hrp
+  rcases hres with ⟨hr0, hdec⟩ | ⟨hp, _⟩ | hf
+  · subst hr0
+    rw [hrp, closeDecision_of_inv hb ho] at hdec
+    split at hdec
+    · cases hdec
+      have hirp := (C05.into_request_parser_cases r'.sp).2.2 hb ho
+      obtain ⟨i1, _, i3, i4, i5, _, _⟩ := C05.into_request_parser ha.1 ha.2 hirp
+      obtain ⟨mix, hm, hsub⟩ := hg.sent
+      refine ⟨ops, mix, hg.sp_eq, hsub, ho, ?_, rfl, i5, i4, i3, i1⟩
+      show t'.wlog = _
+      rw [List.append_nil] at hlog
+      rw [hlog, hm]
+    · cases hdec
+  · rw [hrp] at hp; cases hp
+  · rcases hf with ⟨e, _, hf⟩ | hf <;> rw [hrp] at hf <;> cases hf
+
+theorem closeP4_cst {sp0 : Str.Parser} {wl1 : Bytes} {st : ExitStatus} {al : Nat} {r : AReq} {cs : CloseSt}
+    {e : Run.Env} (hl : cs.late = true) (h : CSt sp0 wl1 st al r cs e) :
+    CPost sp0 wl1 st al (closeP4 r e.mutex e.tr cs) := by
+  cases cs with
+  | start => cases hl
+  | inWriteable => cases hl
+  | inBoundary => cases hl
+  | writeEnd rest =>
+    obtain ⟨ops, wlE, ha, hg, ho, hb, hw, hm⟩ := h
+    simp only [closeP4, hm]
+    exact finishEnd_cst ha hg ho hb hw
+  | writeOut rest endreq =>
+    obtain ⟨ops, wlB, ha, hg, hw, he, hb, hm⟩ := h
+    simp only [closeP4, hm]
+    rcases hwa : writeAllLoop (rest.length + 1) rest e.tr with ⟨rest', t1, ores⟩
+    obtain ⟨⟨dn, hdn, hwl⟩, _, hready, _⟩ := writeAllLoop_spec _ _ _ hwa
+    cases ores with
+    | pending =>
+      refine ⟨fun _ => ⟨ops, wlB, ha, hg, ?_, he, hb, rfl⟩, fun rp hrp => by cases hrp⟩
+      show t1.wlog ++ rest' = _
+      rw [hwl, List.append_assoc, ← hdn]; exact hw
+    | err x => exact ⟨(fun hx => by cases hx), (fun rp hrp => by cases hrp)⟩
+    | panic x => exact ⟨(fun hx => by cases hx), (fun rp hrp => by cases hrp)⟩
+    | ready =>
+      have hr0 := hready rfl
+      subst hr0
+      rw [List.append_nil] at hdn
+      simp only []
+      have hso := sinv_op ha.1 (.consumeOutput r.sp.output.length) trivial
+      refine finishEnd_cst (r := { r with sp := r.sp.consumeOutput r.sp.output.length })
+        ⟨hso.1, by show 24 ≤ (applyOp r.sp (.consumeOutput r.sp.output.length)).cap; rw [hso.2]; exact ha.2⟩ hg.flushAll
+        (by show r.sp.output.drop r.sp.output.length = []; simp) hb ?_
+      rw [he, hwl, ← hdn, hw]
+      rfl
+
+/-- the invariant of the early states of `close()` -/
+def HIe (sp0 : Str.Parser) (wl1 : Bytes) (al : Nat) (r : AReq) (e : Run.Env) : Prop :=
+  ∃ ws, HI sp0 wl1 [.writeable] r ws e ∧ (al = 0 → ws = [])
+
+theorem CPost.noreuse {sp0 : Str.Parser} {wl1 : Bytes} {st : ExitStatus} {al : Nat} {out : CloseOut}
+    (hp : out.2.2.2.2 = .pending → CSt sp0 wl1 st al out.1 out.2.1 { tr := out.2.2.2.1, mutex := out.2.2.1, segs := [] })
+    (hn : ∀ rp, out.2.2.2.2 ≠ .reuse rp) : CPost sp0 wl1 st al out :=
+  ⟨hp, fun rp h => absurd h (hn rp)⟩
+
+/-- phases 3 and 4 from a request at a record boundary -/
+theorem closeFrom3_cst {sp0 : Str.Parser} {wl1 : Bytes} {st : ExitStatus} {al : Nat} {r2 : AReq} {e2 : Run.Env}
+    (h : HIe sp0 wl1 al r2 e2) (hb : r2.sp.isRecordBoundary = true) :
+    CPost sp0 wl1 st al (closeFrom3 r2 e2.mutex e2.tr st al) := by
+  by_cases ha : 0 < al
+  · rw [closeFrom3_alive _ _ _ _ _ ha]
+    exact CPost.noreuse (fun hx => by cases hx) (fun rp hx => by cases hx)
+  · have ha0 : al = 0 := by omega
+    subst ha0
+    obtain ⟨ws, hi, hws⟩ := h
+    have hws0 := hws rfl
+    subst hws0
+    have hmx : lockDrop r2.lock e2.mutex = none := by
+      unfold lockDrop
+      cases hl : r2.lock with
+      | held => rfl
+      | none =>
+        simp only
+        cases hm : e2.mutex with
+        | none => rfl
+        | some k =>
+          cases k with
+          | zero => have := hi.linv.1.mpr hm; rw [hl] at this; cases this
+          | succ j => have := hi.bound j hm; simp at this
+      | polling =>
+        simp only
+        cases hm : e2.mutex with
+        | none => rfl
+        | some k =>
+          cases k with
+          | zero => have := hi.linv.1.mpr hm; rw [hl] at this; cases this
+          | succ j => have := hi.bound j hm; simp at this
+    unfold closeFrom3
+    rw [closeP3_start, if_neg (by omega)]
+    simp only [hmx]
+    obtain ⟨ops, hg, _⟩ := hi.led
+    exact closeP4_cst (r := { r2 with lock := .none }) (cs := .writeOut r2.sp.output (epilogueOf r2 st))
+      (e := { tr := e2.tr, mutex := none, segs := [] }) rfl
+      ⟨ops, e2.tr.wlog, hi.ainv, hg, rfl, rfl, hb, rfl⟩
+
+/-- phase 2 onwards, from the early invariant -/
+theorem closeFrom2_cst {sp0 : Str.Parser} {wl1 : Bytes} {st : ExitStatus} {al : Nat} {r1 : AReq} {e1 : Run.Env}
+    (h : HIe sp0 wl1 al r1 e1) {st1 : CloseSt} (hst : st1 = .start ∨ st1 = .inBoundary) :
+    CPost sp0 wl1 st al (closeFrom2 r1 e1.mutex e1.tr st1 st al) := by
+  obtain ⟨ws, hi, hws⟩ := h
+  -- the tail after `record_boundary()`
+  have tail : ∀ (q : Str.Parser) (resume : Bool), HI sp0 wl1 [.writeable] { r1 with sp := q } ws e1 →
+      CPost sp0 wl1 st al
+        (match closeP2Tail r1 e1.mutex (closeBoundary q resume e1.tr) with
+          | .error x => x
+          | .ok (r, m, t, s) =>
+            match closeP3 r m t s st al with
+            | .error x => x
+            | .ok (r, m, t, s) => closeP4 r m t s) := by
+    intro q resume hq
+    rcases hcb : closeBoundary q resume e1.tr with ⟨sp', t', res⟩
+    have hb := HI.boundary (r := { r1 with sp := q }) hq notPlainW hcb
+    have hrb := (closeBoundary_spec hcb).2.2.2
+    cases res with
+    | ready =>
+      simp only [closeP2Tail]
+      have := closeFrom3_cst (st := st) (r2 := { r1 with sp := sp' }) (e2 := { e1 with tr := t' })
+        ⟨ws, hb, hws⟩ (hrb rfl)
+      unfold closeFrom3 at this
+      exact this
+    | pending =>
+      simp only [closeP2Tail]
+      exact CPost.noreuse (fun _ => ⟨ws, hb.congr rfl rfl, hws⟩) (fun rp hx => by cases hx)
+    | err x => simp only [closeP2Tail]; exact CPost.noreuse (fun hx => by cases hx) (fun rp hx => by cases hx)
+    | panic x => simp only [closeP2Tail]; exact CPost.noreuse (fun hx => by cases hx) (fun rp hx => by cases hx)
+  unfold closeFrom2
+  rcases hst with rfl | rfl
+  · rw [closeP2_start]
+    have hs : r1.sp.setStream none = .ok (spIgnore r1.sp) := by rw [setStream_none]; rfl
+    exact tail _ false (hi.setStream hs notPlainW)
+  · rw [closeP2_inBoundary]
+    exact tail _ true hi
+
+/-- **One poll of `close()` keeps the ledger**, and when it hands the parser back, `Reused` holds. -/
+theorem closePoll_cst {sp0 : Str.Parser} {wl1 : Bytes} {st : ExitStatus} {al : Nat} {r : AReq} {cs : CloseSt}
+    {e : Run.Env} (h : CSt sp0 wl1 st al r cs e) :
+    CPost sp0 wl1 st al (closePoll r cs st al e.mutex e.tr) := by
+  by_cases hl : cs.late = true
+  · rw [closePoll_late _ _ _ _ _ _ hl]; exact closeP4_cst hl h
+  · rw [closePoll_eq']
+    have hwp : ∀ (started : Bool), (cs = .start ∨ cs = .inWriteable) → HIe sp0 wl1 al r e →
+        CPost sp0 wl1 st al
+          (match (match r.writeablePoll started e.mutex e.tr with
+              | (r, _, m, t, .ready) => Except.ok (r, m, t, CloseSt.start)
+              | (r, _, m, t, .pending) => .error (r, .inWriteable, m, t, .pending)
+              | (r, _, m, t, .err e) => if e == .abortRequest then .ok (r, m, t, .start) else .error (r, .inWriteable, m, t, .err e)
+              | (r, _, m, t, .panic s) => .error (r, .inWriteable, m, t, .panic s) : Except CloseOut CloseMid) with
+            | .error x => x
+            | .ok (r, m, t, s) => closeFrom2 r m t s st al) := by
+      intro started _ hh
+      obtain ⟨ws, hi, hws⟩ := hh
+      rcases hw : r.writeablePoll started e.mutex e.tr with ⟨r1, b1, m1, t1, res⟩
+      have h1 := hi.writeablePoll notPlainW hw
+      cases res with
+      | ready =>
+        simp only []
+        exact closeFrom2_cst (e1 := { e with mutex := m1, tr := t1 }) ⟨ws, h1, hws⟩ (Or.inl rfl)
+      | pending =>
+        simp only []
+        exact CPost.noreuse (fun _ => ⟨ws, h1.congr rfl rfl, hws⟩) (fun rp hx => by cases hx)
+      | err x =>
+        by_cases hx : (x == IoErr.abortRequest) = true
+        · simp only [hx, if_true]
+          exact closeFrom2_cst (e1 := { e with mutex := m1, tr := t1 }) ⟨ws, h1, hws⟩ (Or.inl rfl)
+        · simp only [hx]
+          exact CPost.noreuse (fun hx => by cases hx) (fun rp hx => by cases hx)
+      | panic x => simp only []; exact CPost.noreuse (fun hx => by cases hx) (fun rp hx => by cases hx)
+    cases cs with
+    | start => simp only [closeP1]; exact hwp _ (Or.inl rfl) h
+    | inWriteable => simp only [closeP1]; exact hwp _ (Or.inr rfl) h
+    | inBoundary => simp only [closeP1]; exact closeFrom2_cst h (Or.inr rfl)
+    | writeOut a b => exact absurd rfl hl
+    | writeEnd a => exact absurd rfl hl
+
+/-! ## 4. The whole connection, any number of requests -/
+
+theorem CSt.congr {sp0 : Str.Parser} {wl1 : Bytes} {st : ExitStatus} {al : Nat} {r : AReq} {cs : CloseSt}
+    {e e' : Run.Env} (h : CSt sp0 wl1 st al r cs e) (hm : e'.mutex = e.mutex) (hl : e'.tr.wlog = e.tr.wlog) :
+    CSt sp0 wl1 st al r cs e' := by
+  cases cs with
+  | writeOut rest endreq =>
+    obtain ⟨ops, wlB, a, b, c, d, f, g⟩ := h
+    exact ⟨ops, wlB, a, b, by rw [hl]; exact c, d, f, by rw [hm]; exact g⟩
+  | writeEnd rest =>
+    obtain ⟨ops, wlE, a, b, c, d, f, g⟩ := h
+    exact ⟨ops, wlE, a, b, c, d, by rw [hl]; exact f, by rw [hm]; exact g⟩
+  | start => obtain ⟨ws, a, b⟩ := h; exact ⟨ws, a.congr hm hl, b⟩
+  | inWriteable => obtain ⟨ws, a, b⟩ := h; exact ⟨ws, a.congr hm hl, b⟩
+  | inBoundary => obtain ⟨ws, a, b⟩ := h; exact ⟨ws, a.congr hm hl, b⟩
+
+/-- what the request parser had done when it handed over: consumed `F`, completed request `rq` -/
+def HInfo (mc : Nat) (rp : Req.Parser) (rq : Request) (F : Bytes) : Prop :=
+  PInv rp ∧ rp.maxConns = mc ∧ rp.state = .done rq ∧ rp.state = (run .header F mc).st ∧
+    rp.input = (run .header F mc).rem
+
+/-- one served request's share of the log: the request parser's replies for the bytes `F` it consumed,
+then `mix` — the handler's own records with ALL replies the stream parser generated over its whole
+history `ops` as a sublist, in order —, then the epilogue -/
+def Seg (mc : Nat) (F mix epi : Bytes) : Prop :=
+  ∃ (rp : Req.Parser) (rq : Request) (ops : List Op) (r' : AReq) (st : ExitStatus),
+    HInfo mc rp rq F ∧ r'.sp = applyOps (Str.Parser.fromParser rp.cap rq rp.input mc) ops ∧
+    List.Sublist (C03S.grownAll (Str.Parser.fromParser rp.cap rq rp.input mc) ops) mix ∧
+    epi = epilogueOf r' st
+
+/-- the log after any number of completely served requests -/
+inductive Served (mc : Nat) (wl : Bytes) : Bytes → Prop
+  | nil : Served mc wl wl
+  | snoc {L : Bytes} (F mix epi : Bytes) : Served mc wl L → Seg mc F mix epi →
+      Served mc wl (L ++ (C04H.reqRef mc F).out ++ mix ++ epi)
+
+/-- **The ledger of the connection**, whatever phase it is in, after any number of requests. -/
+def K (mc : Nat) (wl : Bytes) (c : Conn) : Prop :=
+  match c.phase with
+  | .parseReq _ _ => ∃ L0 raw0 D, Served mc wl L0 ∧ PRLed mc L0 raw0 D c ∧ c.env.mutex = none
+  | .handler r h => ∃ L0 F rp rq script0, Served mc wl L0 ∧ HInfo mc rp rq F ∧
+      HP (Str.Parser.fromParser rp.cap rq rp.input mc) (L0 ++ (run .header F mc).out) script0 r h.writers c.env ∧
+      h.ops <:+ script0
+  | .closing r cs st al => ∃ L0 F rp rq, Served mc wl L0 ∧ HInfo mc rp rq F ∧
+      CSt (Str.Parser.fromParser rp.cap rq rp.input mc) (L0 ++ (run .header F mc).out) st al r cs c.env
+  | .finished => True
+
+theorem K.congr {mc : Nat} {wl : Bytes} {c c' : Conn} (h : K mc wl c) (hp : c'.phase = c.phase)
+    (hl : c'.env.tr.wlog = c.env.tr.wlog) (hm : c'.env.mutex = c.env.mutex) : K mc wl c' := by
+  unfold K at h ⊢
+  rw [hp]
+  cases hph : c.phase with
+  | finished => trivial
+  | parseReq rp sub =>
+    rw [hph] at h
+    obtain ⟨L0, raw0, D, a, b, d⟩ := h
+    refine ⟨L0, raw0, D, a, ?_, by rw [hm]; exact d⟩
+    unfold PRLed at b ⊢
+    rw [hp, hl]; exact b
+  | handler r hh =>
+    rw [hph] at h
+    obtain ⟨L0, F, rp, rq, script0, a, b, d, f⟩ := h
+    exact ⟨L0, F, rp, rq, script0, a, b, ⟨d.1.congr hm hl, by rw [hm]; exact d.2⟩, f⟩
+  | closing r cs st al =>
+    rw [hph] at h
+    obtain ⟨L0, F, rp, rq, a, b, d⟩ := h
+    exact ⟨L0, F, rp, rq, a, b, d.congr hm hl⟩
+
+theorem filter_none {ws : List (Option Writer)} (h : (ws.filter Option.isSome).length = 0) (j : Nat) (w : Writer) :
+    ws[j]? ≠ some (some w) := by
+  intro hj
+  have hmem : some w ∈ ws := List.mem_of_getElem? hj
+  have : some w ∈ ws.filter Option.isSome := List.mem_filter.2 ⟨hmem, rfl⟩
+  rw [List.eq_nil_of_length_eq_zero h] at this
+  cases this
+
+/-- the handler returned: `close()` starts with the early invariant -/
+theorem hie_of_hp {sp0 : Str.Parser} {wl1 : Bytes} {script0 : List HOp} {r : AReq} {ws : List (Option Writer)}
+    {e : Run.Env} (h : HP sp0 wl1 script0 r ws e) (s : String) :
+    HIe sp0 wl1 (ws.filter Option.isSome).length r (e.ev s) := by
+  by_cases ha : (ws.filter Option.isSome).length = 0
+  · refine ⟨[], ⟨h.1.ainv, h.1.linv, (fun i w hw => by cases hw), fun j hj => ?_, ?_⟩, fun _ => rfl⟩
+    · obtain ⟨w, hw⟩ := h.2 j hj
+      exact absurd hw (filter_none ha j w)
+    · obtain ⟨ops, hg, _⟩ := h.1.led
+      exact ⟨ops, hg, fun hP => absurd hP notPlainW⟩
+  · exact ⟨ws, (h.1.weaken notPlainW).ev s, fun h0 => absurd h0 ha⟩
+
+theorem k_step {mc : Nat} {wl : Bytes} {c : Conn} (h : K mc wl c)
+    (hnp : ∀ c1 s, stepConn c ≠ .halt c1 (.panic s)) : K mc wl (stepConn c).conn := by
+  cases hph : c.phase with
+  | finished => rw [step_finished c hph]; exact h
+  | parseReq rp sub =>
+    unfold K at h
+    rw [hph] at h
+    obtain ⟨L0, raw0, D, hsv, hl, hmx⟩ := h
+    have hmx' : (stepConn c).conn.env.mutex = none := by
+      rw [step_mutex_parse c (Or.inl (by rw [hph]; rfl))]; exact hmx
+    rcases prled_step hl with hh | hf | ⟨bs, hl', _, _⟩
+    · -- into the handler
+      cases hst : stepConn c with
+      | halt c1 res =>
+        rw [hst] at hh
+        cases hp1 : c1.phase with
+        | handler r' h' =>
+          obtain ⟨r, hh0, hp0⟩ := halt_handler_from_handler hst hp1
+          rw [hph] at hp0; cases hp0
+        | finished => simp [Step.conn, hp1, Phase.isHandler] at hh
+        | parseReq a b => simp [Step.conn, hp1, Phase.isHandler] at hh
+        | closing a b d f => simp [Step.conn, hp1, Phase.isHandler] at hh
+      | next c1 =>
+        rw [hst] at hh hmx'
+        simp only [Step.conn] at hh hmx' ⊢
+        cases hp1 : c1.phase with
+        | finished => simp [hp1, Phase.isHandler] at hh
+        | parseReq a b => simp [hp1, Phase.isHandler] at hh
+        | closing a b d f => simp [hp1, Phase.isHandler] at hh
+        | handler r' h' =>
+          obtain ⟨rp', rest, rest', t, rq, hp, _, hw, hd, _, hr, hhh, _, henv⟩ :=
+            C07.handler_only_from_done c c1 r' h' hst hp1
+          rw [hph] at hp; cases hp
+          simp only [PRLed, hph] at hl
+          obtain ⟨hmc, ⟨hpi, hin, hstt⟩, _, hlog⟩ := hl
+          have hst' : rp.state = (run .header (raw0 ++ D) rp.maxConns).st := by
+            rcases hstt with hx | ⟨hx, _⟩
+            · exact hx
+            · rw [hx] at hd; cases hd
+          obtain ⟨⟨dn, hdn, hwl⟩, _, hready, _⟩ := writeAllLoop_spec _ _ _ hw
+          have hr0 := hready rfl
+          subst hr0
+          rw [List.append_nil] at hdn
+          subst hmc
+          have hidq : rq.id < 65536 := hid_holds rp.maxConns (raw0 ++ D) rq (by rw [← hst', hd])
+          have ha : AInv (AReq.new (Str.Parser.fromParser rp.cap rq rp.input rp.maxConns)) :=
+            new_ainv (C03S.fromParser_inv rp.cap rq rp.input rp.maxConns hpi.1 hidq) hpi.2.2
+          have hl0 : LockInv (AReq.new (Str.Parser.fromParser rp.cap rq rp.input rp.maxConns)) none :=
+            new_lockInv _ (fun h => nomatch h)
+          unfold K
+          rw [hp1]
+          refine ⟨L0, raw0 ++ D, rp, rq, (C07.nextScript c.scripts).1, hsv, ⟨hpi, rfl, hd, hst', hin⟩, ⟨?_, ?_⟩,
+            by rw [hhh]; exact List.suffix_refl _⟩
+          · rw [hhh, hr, henv]
+            refine ⟨ha, (by show LockInv _ c.env.mutex; rw [hmx]; exact hl0), (fun i w hw => by cases hw),
+              fun j hj => ?_, [], ?_, fun _ => ⟨trivial, fun s hx => by cases hx⟩⟩
+            · have : c.env.mutex = some (j + 1) := hj
+              rw [hmx] at this; cases this
+            · show GLed _ [] _ _ t.wlog
+              rw [hwl, ← hdn, hlog]
+              exact GLed.nil _ _
+          · intro j hj
+            rw [hmx'] at hj; cases hj
+    · unfold K; rw [hf]; trivial
+    · unfold K
+      have hpp := prled_isParse hl'
+      cases hp1 : (stepConn c).conn.phase with
+      | parseReq a b => exact ⟨L0, raw0, D ++ bs, hsv, hl', hmx'⟩
+      | finished => rw [hp1] at hpp; cases hpp
+      | handler a b => rw [hp1] at hpp; cases hpp
+      | closing a b d f => rw [hp1] at hpp; cases hpp
+  | handler r hh =>
+    unfold K at h
+    rw [hph] at h
+    obtain ⟨L0, F, rp, rq, script0, hsv, hinfo, hp, hsuf⟩ := h
+    have hst := C07.handler_step c r hh hph
+    rcases hhp : handlerPoll (handlerFuel c.env r) r hh c.env with ⟨r1, hh1, e1, hres⟩
+    have hpost := handlerPoll_hi (handlerFuel c.env r) r hh c.env hp.1 hsuf
+    have hown := handlerPoll_hp (handlerFuel c.env r) r hh c.env hp hsuf
+    rw [hhp] at hst hpost hown
+    have hp1 : HP _ _ script0 r1 hh1.writers e1 := ⟨hpost.1, hown⟩
+    cases hres with
+    | pending =>
+      simp only at hst
+      rw [hst]
+      exact ⟨L0, F, rp, rq, script0, hsv, hinfo, hp1, hpost.2⟩
+    | panic s =>
+      simp only at hst
+      exact absurd hst (hnp _ _)
+    | done x =>
+      cases x with
+      | ok st =>
+        simp only at hst
+        rw [hst]
+        exact ⟨L0, F, rp, rq, hsv, hinfo, hie_of_hp hp1 _⟩
+      | error x =>
+        simp only at hst
+        rw [hst]
+        split
+        · exact ⟨L0, F, rp, rq, hsv, hinfo, hie_of_hp hp1 _⟩
+        · trivial
+  | closing r cs st al =>
+    unfold K at h
+    rw [hph] at h
+    obtain ⟨L0, F, rp, rq, hsv, hinfo, hcs⟩ := h
+    have hst := C07.closing_step c r cs st al hph
+    have hpost := closePoll_cst hcs
+    rcases hcp : closePoll r cs st al c.env.mutex c.env.tr with ⟨r1, cs1, m1, t1, res⟩
+    rw [hcp] at hst hpost
+    cases res with
+    | pending =>
+      simp only at hst
+      rw [hst]
+      exact ⟨L0, F, rp, rq, hsv, hinfo, (hpost.1 rfl).congr rfl rfl⟩
+    | panic s => simp only at hst; exact absurd hst (hnp _ _)
+    | err x => simp only at hst; rw [hst]; trivial
+    | reuse rp1 =>
+      simp only at hst
+      rw [hst]
+      obtain ⟨ops, mix, g1, g2, g3, g4, g5, g6, g7, g8, g9⟩ := hpost.2 rp1 rfl
+      have hgr : C03S.sentAll (Str.Parser.fromParser rp.cap rq rp.input mc) ops =
+          C03S.grownAll (Str.Parser.fromParser rp.cap rq rp.input mc) ops := by
+        have := C03S.output_ledger (Str.Parser.fromParser rp.cap rq rp.input mc) ops
+        rw [← g1, g3, List.append_nil] at this
+        exact this
+      have hmc1 : rp1.maxConns = mc := by
+        rw [g8, g1, (C05.applyOps_frame ops _).2.2]; rfl
+      refine ⟨t1.wlog, rp1.input, [], ?_, ⟨hmc1, g6, g7, rfl, rfl, rfl⟩, g5⟩
+      have : t1.wlog = L0 ++ (C04H.reqRef mc F).out ++ mix ++ epilogueOf r1 st := by
+        show _ = _
+        have := g4
+        simp only at this
+        rw [this, (C04H.req_replies_hostile mc F).1]
+      rw [this]
+      exact .snoc F mix _ hsv ⟨rp, rq, ops, r1, st, hinfo, g1, by rw [← hgr]; exact g2, rfl⟩
+
+theorem k_poll {mc : Nat} {wl : Bytes} : ∀ (fuel : Nat) (c : Conn) {c' : Conn} {res : PRes},
+    K mc wl c → pollConn fuel c = (c', res) → (∀ s, res ≠ .panic s) → K mc wl c'
+  | 0, c, c', res, _, hp, hnp => by
+    have : pollConn 0 c = (c, .panic "model: connection fuel exhausted") := rfl
+    rw [this] at hp; cases hp; exact absurd rfl (hnp _)
+  | fuel + 1, c, c', res, h, hp, hnp => by
+    rw [pollConn_succ] at hp
+    cases hst : stepConn c with
+    | next c1 =>
+      have hj := k_step h (fun c2 s hx => by rw [hst] at hx; cases hx)
+      rw [hst] at hp hj
+      exact k_poll fuel c1 hj hp hnp
+    | halt c1 r =>
+      rw [hst] at hp
+      simp only [Step.run] at hp
+      cases hp
+      have hj := k_step h (fun c2 s hx => by rw [hst] at hx; cases hx; exact hnp s rfl)
+      rw [hst] at hj
+      exact hj
+
+theorem K.release {mc : Nat} {wl : Bytes} {c : Conn} (h : K mc wl c) :
+    K mc wl { c with env := c.env.release.1 } :=
+  h.congr rfl (release_frame c.env).1 (C08Inv.release_spec c.env).1
+
+theorem K.prePoll {mc : Nat} {wl : Bytes} {c : Conn} (n : Nat) (sa : Option Nat) (h : K mc wl c) :
+    K mc wl (Run.prePoll c n sa) := by
+  have key : ∀ c0 : Conn, c0.phase = c.phase → c0.env = c.env →
+      K mc wl ({ c0 with env := ({ c0.env.release.1 with
+        tr := { c0.env.release.1.tr with woken := false } } : Run.Env).ev s!"|{n}" }) := by
+    intro c0 hp he
+    refine h.congr hp ?_ ?_
+    · show c0.env.release.1.tr.wlog = _
+      rw [(release_frame c0.env).1, he]
+    · show c0.env.release.1.mutex = _
+      rw [(C08Inv.release_spec c0.env).1, he]
+  unfold Run.prePoll
+  split
+  · exact key _ rfl rfl
+  · exact key _ rfl rfl
+
+/-- a run that ends in STALL keeps `K` -/
+theorem k_run {mc : Nat} {wl : Bytes} : ∀ (fuel : Nat) (c : Conn) (n : Nat) (sa : Option Nat),
+    K mc wl c → (runTask fuel c n sa).2 = "STALL" → K mc wl (runTask fuel c n sa).1
+  | 0, _, _, _, _, h => absurd h C08Inv.fuel_ne_stall
+  | fuel + 1, c, n, sa, hj, h => by
+    rw [runTask_succ] at h ⊢
+    have hj0 := hj.prePoll n sa
+    rcases hpc : pollConn (connFuel (Run.prePoll c n sa)) (Run.prePoll c n sa) with ⟨c1, res⟩
+    rw [hpc] at h
+    cases res with
+    | finished => exact absurd h C08Inv.ret_ne_stall
+    | panic s => exact absurd h C08Inv.panic_ne_stall
+    | pending =>
+      have hp := k_poll _ _ hj0 hpc (fun s hx => by cases hx)
+      revert h
+      simp only []
+      split
+      · exact fun h => k_run fuel _ _ _ hp h
+      · split
+        · exact fun h => k_run fuel _ _ _ hp.release h
+        · split
+          · split
+            · exact fun h => k_run fuel _ _ _ hp.release h
+            · exact fun _ => hp.release
+          · exact fun _ => hp.release
+
+theorem k_init (b mc : Nat) (env : Run.Env) (scripts : List (List HOp × Bool)) (stop : Bool)
+    (hm : env.mutex = none) :
+    K mc env.tr.wlog { phase := .parseReq (Req.Parser.new b mc) .start, env, scripts, stop } :=
+  ⟨env.tr.wlog, [], [], .nil, ⟨rfl, Req.new_inv b mc, rfl, rfl, rfl, rfl⟩, hm⟩
+
 end Fcgi.C08R
